@@ -484,7 +484,28 @@ def selftest(ctx, obs):
     return n_expected, len(probe.violations)
 
 
+def replay_setup(ctx):
+    """--replay <file>: re-run the generated stream the replay came from (same seed and tier) and keep only that finding"""
+    if not getattr(ctx, "replay", None):
+        return None
+    d = json.load(open(ctx.replay))
+    ctx.seed, ctx.tier = int(d.get("seed", ctx.seed)), d.get("tier", ctx.tier)
+    ctx.log(f"replaying {ctx.replay}: seed {ctx.seed}, tier {ctx.tier}, signature {d.get('signature')}")
+    return d.get("signature")
+
+
+def replay_filter(ctx, want):
+    if want is None:
+        return
+    keep = [v for v in ctx.violations if v["sig"] == want]
+    ctx.log(f"replay: {'REPRODUCED' if keep else 'not reproduced'} ({len(ctx.violations)} finding(s) in the stream, {len(keep)} with the replayed signature)")
+    ctx.violations = keep
+    if not keep:
+        ctx.proof_failures = []
+
+
 def run(ctx):
+    want = replay_setup(ctx)
     quick = ctx.tier == "quick"
     binp = build_harness(ctx)
     msgs, spans = regen(ctx, ["grid", "ranges"])
@@ -534,5 +555,6 @@ def run(ctx):
         "frequency <-> sum/diff centre, counts, round trip iff equal spans": "proved (iff, both directions, plus idempotence)",
         "transpose of any shape": "proved_partial: square (all n) and single-column; non-square REFUTED (Findings/C14_transpose.v) and observed",
     }
+    replay_filter(ctx, want)
     return finish(ctx, assumptions=["binary64 rounding of the grid formulas is measured (<= 4.5 ulp of the axis scale; exact on dyadic inputs), not proved",
                                     "JointSpectrum point evaluation is a black box here: only the order/identity of the points handed to it is covered"])
